@@ -634,6 +634,44 @@ def check_total_candidates(prog: Program, res: Result) -> None:
     res.floor(R, 3)
 
 
+def check_track_keys(prog: Program, res: Result, rule: str = "C09-total") -> None:
+    """The per-track candidate dictionaries (a `defaultdict(list)` built and returned by Tracker.update_candidates /
+    FlowShiftTracker.get_shifted_instances_from_prv_frames) are read by get_scores as `d[track_id]` for every current
+    track.  So every entry is filed under a TRACK ID: the key of each store / append is the `.track_id` (`.track_ids[i]`) of
+    the candidate it files, or the variable of a loop over the current tracks.  Filing under another index (the position of
+    the instance in its frame, say) leaves a track without candidates - an all-inf column, an infeasible assignment."""
+    n = 0
+    for fi in prog.all_functions():
+        if not fi.module.name.startswith("sleap_nn.tracking.tracker"):
+            continue
+        dd = [s_ for s_ in walk_function(fi.node) if isinstance(s_, ast.Assign) and len(s_.targets) == 1 and isinstance(s_.targets[0], ast.Name)
+              and isinstance(s_.value, ast.Call) and norm(s_.value.func).split(".")[-1] == "defaultdict"]
+        rets = [r for r in walk_function(fi.node) if isinstance(r, ast.Return) and isinstance(r.value, ast.Name)]
+        for d in dd:
+            D = d.targets[0].id
+            if not any(r.value.id == D for r in rets):
+                continue
+            for sub in walk_function(fi.node):
+                if not (isinstance(sub, ast.Subscript) and isinstance(sub.value, ast.Name) and sub.value.id == D):
+                    continue
+                par = getattr(sub, "_parent", None)
+                is_write = isinstance(sub.ctx, ast.Store) or (isinstance(par, ast.Attribute) and par.attr in ("append", "extend") and isinstance(getattr(par, "_parent", None), ast.Call))
+                if not is_write:
+                    continue
+                n += 1
+                res.touch(fi)
+                k = astq.expand_at(fi.node, sub.slice, enclosing_stmt(sub), keep=[t for lp in astq.enclosing_loops(sub) for t in astq.target_names(lp.target)])
+                txt = norm(k)
+                ok = ".track_id" in txt or txt == "track_id" or txt.endswith("_track_id")
+                if not ok and isinstance(k, ast.Name):
+                    lps = [lp for lp in astq.enclosing_loops(sub) if isinstance(lp, ast.For) and k.id in astq.target_names(lp.target)]
+                    ok = any("current_tracks" in norm(lp.iter) or "track_id" in norm(lp.iter) for lp in lps)
+                res.ob(rule, ok, fi.qualname, f"`{D}[{short(sub.slice, 30)}]` is filed under a track id",
+                       f"`{short(enclosing_stmt(sub), 70)}` files a candidate under `{short(k, 40)}`, which is not a track id: get_scores reads the dictionary by track id, so the "
+                       "track the candidate belongs to has no candidates (all-inf column, 'cost matrix is infeasible') and another track gets foreign ones", f"{fi.module.relpath}:{sub.lineno}")
+    res.count(rule, 0)
+
+
 def check_matcher_axes(prog: Program, res: Result, rule: str = "C09-axes") -> None:
     """`rows, cols = <matcher>(M)` returns positions along axis 0 and axis 1 of M (detections x tracks).  Wherever M is read
     back at a matched pair, the first index must come from `rows` and the second from `cols`: M[col, row] is silently wrong
@@ -693,6 +731,11 @@ def check(prog: Program, res: Result) -> None:
     check_alloc(prog, res)
     check_features_aligned(prog, res)
     check_total_candidates(prog, res)
+    check_track_keys(prog, res)
+    # the score matrix is allocated (detections x tracks) even when there are no detections: a matrix assembled from nested
+    # lists degenerates to shape (0,) for an empty frame and the matcher raises (shared with C10-col)
+    from . import c10 as _c10
+    res.borrow(_c10.check_col, "C09-col", prog)
     check_truth(prog, res)
     check_arity(prog, res)
     check_once(prog, res)
